@@ -21,8 +21,12 @@ def shape_val(rng, s):
 
 
 def node(rng, i, o):
+    # single-port type dictionaries; the port is *the* entry whatever it is called ('input'/'output' by convention;
+    # nir.ir.graph.Identity, for one, keys its output port 'input')
+    ki = "input" if rng.random() < 0.8 else rng.choice(["output", "spikes", "current", "x", "in"])
+    ko = "output" if rng.random() < 0.8 else rng.choice(["input", "spikes", "v", "y", "out"])
     return {"type": "Scale", "kwargs": [["scale", gen.arr(rng, [1], "<f8")]],
-            "types": [{"d": [["input", shape_val(rng, i)]]}, {"d": [["output", shape_val(rng, o)]]}]}
+            "types": [{"d": [[ki, shape_val(rng, i)]]}, {"d": [[ko, shape_val(rng, o)]]}]}
 
 
 def expected(names, types, edges):
